@@ -811,7 +811,14 @@ def judgeLine2 (j : JSt) (lineNo : Nat) (opLine obsLine : String) : JSt :=
           | some m => if m.judged then m.origin else ""
           | none => ""
         if origin = "C14" then
-          if x == y then j else j.reject "C14" lineNo "the graph after deploy_to() differs from the graph after the same direct calls"
+          -- only when the second graph really received the same calls: by the reference, both must hold the same vertices,
+          -- edges and data (a candidate of the shrinker that dropped direct calls of the second graph is no counter-example)
+          let sameRef : Bool := match j.getMon a, j.getMon b with
+            | some ma, some mb =>
+              mb.judged && sortNats ma.r.ids == sortNats mb.r.ids &&
+                ma.r.ids.all (fun v => ma.r.edg v == mb.r.edg v && (ma.r.dat v).map (·.toBytes) == (mb.r.dat v).map (·.toBytes))
+            | _, _ => false
+          if x == y || !sameRef then j else j.reject "C14" lineNo "the graph after deploy_to() differs from the graph after the same direct calls"
         else if origin = "C10" ∨ origin = "C13" then
           -- only a pair in lock-step (the same calls on both since the clone) must look the same: a candidate of the
           -- shrinker that dropped a call of one side is not a counter-example
